@@ -67,8 +67,8 @@ def run(ctx):
     harness = parcheck.build_cyc_harness()
 
     quick = ctx.tier == "quick"
-    ncases = 30 if quick else 260
-    iters = 100 if quick else 320
+    ncases = 30 if quick else 240
+    iters = 100 if quick else 300
     scheds = ["pct", "random"]
     size = "quick" if quick else "thorough"
     cases = list(pe.corpus("C18"))
@@ -84,22 +84,59 @@ def run(ctx):
     res, tdirs = parcheck.explore18(ctx, cases, harness, scheds, iters, out_root, trace_cap=3 if quick else 4)
 
     # ---- (a) + (b)
-    findings, known, lin_runs = [], [], 0
+    findings, known, lin = [], [], {}
+    unwound = {}                       # case id -> {panic code: schedules}
     by_id = {c.split()[1]: c for c in cases}
+    nlin = 200 if quick else 400
+
+    def lin_known(c, key, got):
+        """does some single-threaded linearisation of the par groups return `got` at request `key`?"""
+        cid = c.split()[1]
+        if cid not in lin:
+            lin[cid] = parcheck.linearisation_results(c, harness, ctx.seed, n=nlin)
+        return any(r.get(tuple(key)) == got for r in lin[cid])
+
     for sched, (out, _hung) in res.items():
         for c in cases:
             cid = c.split()[1]
-            fs, kn = pe.check_case18(cid, spec[cid], out)
+            fs, kn = pe.check_case18(cid, spec[cid], out, shuttle=True)
             known += [(cid, sched, k) for k in kn]
             for f in fs:
                 if f["kind"] == "harness":
                     raise common.CheckError(f"cyc_par produced no usable output for {cid}: {f}")
-                if f["kind"] == "values" and f["detail"]["revision"] > 0:
-                    lin_runs += 1
-                    if parcheck.linearisation_known(c, harness, f, ctx.seed, n=200 if quick else 400):
-                        known.append((cid, sched, dict(iter=f["iter"], other_entry_order=True, **f["detail"])))
-                        continue
+                if f["kind"] == "unwound":
+                    d = unwound.setdefault(cid, {})
+                    d[f["detail"]["code"]] = d.get(f["detail"]["code"], 0) + 1
+                    continue
+                if f["kind"] == "values" and f["detail"]["revision"] > 0 and lin_known(c, f["detail"]["request"], f["detail"]["got"]):
+                    known.append((cid, sched, dict(iter=f["iter"], other_entry_order=True, **f["detail"])))
+                    continue
                 findings.append((c, sched, f))
+
+    # ---- executions in which something unwound (salsa's debug-build backdate assertion, known
+    # finding of C12/C13/C15): shuttle cannot soundly drive them; the cases are re-examined on OS
+    # threads (no hang; every request = specification, or the same panic as some single-threaded
+    # linearisation, or PropagatedPanic next to a panicking handle)
+    os_part = dict(cases=0, repetitions=0, known_outcomes=0, findings=0, hung=False, panic_codes={})
+    if unwound:
+        std = parcheck.build_cyc_harness(std=True)
+        ucases = [by_id[cid] for cid in unwound]
+        oiters = 150 if quick else 300
+        oout, ohung = pe.run_harness18(ucases, std, oiters, "os", ctx.seed, trace_cap=0)
+        os_part.update(cases=len(ucases), hung=bool(ohung))
+        for c in ucases:
+            cid = c.split()[1]
+            for code, n in unwound[cid].items():
+                os_part["panic_codes"][f"p{code}"] = os_part["panic_codes"].get(f"p{code}", 0) + n
+            fs, nk = pe.check_case18_os(cid, spec[cid], oout, lambda key, g, c=c: lin_known(c, key, g))
+            os_part["repetitions"] += len(oout.get(cid, {}).get("iters", []))
+            os_part["known_outcomes"] += nk
+            for f in fs:
+                if f["kind"] == "harness" and ohung:
+                    continue
+                os_part["findings"] += 1
+                findings.append((c, "os", f))
+    lin_runs = len(lin)
     # ---- (d)
     rp = parcheck.replay_traces(tdirs)
     # ---- (c)
@@ -140,7 +177,7 @@ def run(ctx):
             sched_file = parcheck.keep_file(f["detail"].get("sched"), f"C18-schedule-{ctx.seed}-{ctx.replay_n + 1}.txt")
         ctx.violation(dict(kind=WHAT, case=c, scheduler=sched, harness_seed=ctx.seed, iteration=f["iter"],
                            iters_to_run=max(iters, f["iter"] + 1), finding=f, shuttle_schedule_file=sched_file,
-                           engine="par-cycle",
+                           engine="par-cycle", os_threads=(sched == "os"),
                            how_to_replay="./vp replay <this file>  (re-runs the same case with the same scheduler and seed up to "
                                          "the failing iteration; a persisted shuttle schedule is replayed too)"))
     for (owner, sched, req) in contradicting[:1]:
@@ -162,6 +199,19 @@ def run(ctx):
                                     "enabled, preconditions, outcome incl. the wake-ups of transfer_lock)",
                            first_mismatch=rp["mismatches"][0] if rp["mismatches"] else None, trace_file=keep,
                            search=f"{tot_s} explored schedules: none violates the specification"), no_input=True)
+    listed = {kf["class"] for kf in common.known_findings() if kf["property"] == ctx.prop}
+    for cls, hit in (("backdate_violation_participant_after_head_backdated", bool(unwound)),
+                     ("single_threaded_history_dependent_cycle_results", bool(known))):
+        if hit and cls not in listed:
+            ctx.violation(dict(kind="deviation class met that is not listed in known-findings.txt", deviation_class=cls,
+                               example=(known[0][2] if cls.startswith("single") and known else {k: dict(v) for k, v in list(unwound.items())[:1]})),
+                          no_input=True)
+    if unwound:
+        ctx.known_finding("class=backdate_violation_participant_after_head_backdated (C12/C13/C15, debug builds only) salsa's own "
+                          f"backdate assertion fired in {sum(sum(v.values()) for v in unwound.values())} explored schedules of "
+                          f"{len(unwound)} cases (later revisions; also in single-threaded linearisations of the same history); "
+                          "shuttle cannot soundly drive executions that unwind, so these cases were re-examined on OS threads: "
+                          f"{os_part['repetitions']} repetitions, {os_part['findings']} findings, hung={os_part['hung']}")
     if known:
         byrev = {}
         for cid, sched, k in known:
@@ -212,6 +262,8 @@ def run(ctx):
         "findings": len(findings),
         "differences_in_known_single_threaded_classes": len(known),
         "linearisation_searches": lin_runs,
+        "schedules_in_which_something_unwound_under_shuttle": {cid: v for cid, v in list(unwound.items())[:20]},
+        "unwinding_cases_reexamined_on_os_threads": os_part,
         "certificate": cert,
         "proto_traces_replayed": rp["files"], "proto_traces_ok": rp["ok"], "proto_trace_mismatches": rp["mismatch"],
         "proto_steps_replayed": rp["steps"], "proto_step_coverage": rp["cov"],
@@ -224,8 +276,7 @@ def run(ctx):
                        "proved monotone by C12_profile_programs_monotone)"]
     ctx.write_evidence("proof")
     shutil.rmtree(out_root, ignore_errors=True)
-    shutil.rmtree(out_root + ".schedules", ignore_errors=True)
 
 
 def replay(ctx, rp):
-    return parcheck.replay18(ctx, rp)
+    return parcheck.replay18(ctx, rp, std=bool(rp.get("os_threads")))
